@@ -76,7 +76,7 @@ TABLES_B = [
         'LanguageGraphAttackStep.to_dict', 'LanguageGraphAttackStep.qualified_name', 'DependencyChain.to_dict',
         'DependencyChain.__next__', 'LanguageGraph.reverse_dep_chain', 'LanguageGraph.process_step_expression',
         'LanguageGraph._get_variable_for_asset_type_by_name', 'LanguageGraph.get_asset_by_name',
-        'LanguageGraph._to_dict'])],
+        'LanguageGraph._to_dict', 'LanguageGraph.load_from_file', 'LanguageGraphAsset.get_all_common_superassets'])],
     # ---- attack graph: evaluation of step expressions, generation, bookkeeping, codec
     ('B300', '_process_step_expression', ('C01', 'C16')),
     ('B301', 'AttackGraph._generate_graph', ('C01', 'C02')),
@@ -89,6 +89,8 @@ TABLES_B = [
     ('B308', 'AttackGraph._from_dict', ('C10',)),
     ('B309', 'AttackGraphNode.to_dict', ('C10',)),
     ('B310', 'Attacker.to_dict', ('C10',)),
+    ('B311', 'AttackGraph.load_from_file', ('C10',)),
+    ('B312', 'AttackGraph.save_to_file', ('C10',)),
     # ---- model codec (C07) and legacy loaders (C18, C19)
     ('B400', 'Model._to_dict', ('C07',)),
     ('B401', 'Model._from_dict', ('C07',)),
@@ -96,6 +98,9 @@ TABLES_B = [
     ('B403', 'Model.association_to_dict', ('C07',)),
     ('B404', 'Model.attacker_to_dict', ('C07',)),
     ('B405', 'Model.get_asset_defenses', ('C07', 'C02')),
+    ('B406', 'Model.load_from_file', ('C07',)),
+    ('B407', 'Model.save_to_file', ('C07',)),
+    ('B408', 'save_dict_to_file', ('C07', 'C10')),
     ('B410', 'load_model_from_version_0_0_39._process_model', ('C18',)),
     ('B411', 'load_model_from_scad_archive', ('C18',)),
     ('B420', 'get_model', ('C19',)),
